@@ -671,7 +671,7 @@ async def _(mpc):
     return rcs
 
 
-@open_case('C09', 'C09-duplicate-party-in-list', 'output to receivers=[0, 0] (a party listed twice)', cfg=(3, 1, False), expected=[5, None, None])
+@case('C09', 'output to receivers=[0, 0] (a party listed twice), slow receiver', 'eda2ed4', cfg=(3, 1, False), expected=[5, None, None])
 async def _(mpc):
     secint = mpc.SecInt(16)
     import asyncio
